@@ -32,7 +32,7 @@ func init() {
 			"cyclic Go values are not generated; allocation size requested by length prefixes is recorded but is not a verdict",
 			"a per-case watchdog of 20 s (confirmed alone with 60 s) decides 'fails to terminate'",
 		},
-		quick: 250000, thorough: 8000000, minQuick: 100000, minThorough: 2000000,
+		quick: 450000, thorough: 8000000, minQuick: 100000, minThorough: 2000000,
 	}})
 }
 
@@ -40,7 +40,7 @@ func (p *c05) HangIsViolation() bool          { return true }
 func (p *c05) Shards(tier string) int         { return 16 }
 func (p *c05) CaseTimeoutSec(tier string) int { return 20 }
 func (p *c05) RequiredCounters(string) []string {
-	return []string{"canary-runs", "class:value-grid", "class:mutation", "class:blob"}
+	return []string{"canary-runs", "class:value-grid", "class:pair-grid", "class:mutation", "class:blob"}
 }
 
 // ---- value shapes
@@ -81,6 +81,32 @@ type namedVal struct {
 	V    interface{}
 }
 
+// lists above the engine's "large collection" thresholds (50 elements), with and without unhashable elements
+func c05BigList(nested bool) []interface{} {
+	out := []interface{}{}
+	for i := 0; i < 60; i++ {
+		out = append(out, i)
+	}
+	if nested {
+		out = append(out, []interface{}{1, 2}, map[string]interface{}{"k": 1}, "s", nil, 2.5)
+	}
+	return out
+}
+func c05BigInts() []int {
+	out := make([]int, 70)
+	for i := range out {
+		out[i] = 70 - i
+	}
+	return out
+}
+func c05BigLists() [][]int {
+	out := make([][]int, 55)
+	for i := range out {
+		out[i] = []int{i}
+	}
+	return out
+}
+
 func c05Values() []namedVal {
 	var nilPtr *c05Plain
 	var nilSlice []string
@@ -115,6 +141,7 @@ func c05Values() []namedVal {
 		{"emb", c05Emb{c05Inner{"deep"}, "top"}}, {"ptr-emb", c05PtrEmb{&c05Inner{"pdeep"}, "top"}}, {"nil-emb", c05PtrEmb{nil, "top"}}, {"ptr-nil-emb", &c05PtrEmb{nil, "t"}},
 		{"meth", c05Meth{V: 9}}, {"ptr-meth", &c05Meth{V: 8}}, {"ptr-int", pone}, {"ptr-str", &str}, {"ptr-ptr", &pone},
 		{"time", time.Unix(1700000000, 0).UTC()}, {"zero-time", time.Time{}}, {"duration", 90 * time.Second},
+		{"list-big-nested", c05BigList(true)}, {"list-big", c05BigList(false)}, {"ints-big", c05BigInts()}, {"lists-big", c05BigLists()},
 		{"chan", ch}, {"func", func() int { return 1 }}, {"deep", deep}, {"err", fmt.Errorf("an error value")}, {"struct-empty", struct{}{}},
 	}
 }
@@ -136,6 +163,13 @@ var c05Constructs = []string{
 	"{% set q = v %}{{ q }}{% set v = 1 %}{{ v }}", "{% do v %}", "{% include v %}", "{% include v ignore missing %}", "{% include 'nope' ignore missing with v %}", "{% include 'canary_inc' with {'a': v} only %}", "{% extends v %}", "{% import v as z %}", "{% from v import z %}",
 	"{% apply upper %}{{ v }}{% endapply %}", "{% spaceless %}<a> {{ v }} </a>{% endspaceless %}", "{% macro mm(a, b = v) %}{{ a }}{{ b }}{% endmacro %}{{ mm(v) }}{{ mm() }}{{ mm(v, v, v) }}",
 	"{{ [v, v]|join(',') }}", "{{ {'k': v}|keys|join }}", "{{ {'k': v}.k }}", "{{ [v]|first }}", "{{ v|default(v)|upper|length }}", "{{ v|first|last|first }}", "{{ v|keys|sort|reverse|join('-') }}", "{{ v|merge(w)|sort|join }}", "{{ w|merge(v)|length }}", "{{ v|slice(1)|slice(-1)|length }}",
+}
+
+var c05PairConstructs = []string{
+	"{{ v in w }}", "{{ v not in w }}", "{{ w[v] }}", "{{ v == w }}{{ v != w }}", "{{ v < w }}{{ v >= w }}", "{{ v ~ w }}", "{{ v + w }}{{ v - w }}{{ v * w }}", "{{ v / w }}{{ v % w }}", "{{ merge(v, w)|length }}", "{{ v|merge(w)|length }}",
+	"{{ v|default(w) }}", "{{ v|join(w) }}", "{{ v|split(w)|length }}", "{{ v|replace(w) }}", "{{ v|slice(w, w) }}", "{{ v|date(w) }}", "{{ v|number_format(w, w, w) }}", "{{ v|round(w) }}", "{{ max(v, w) }}{{ min(w, v) }}", "{{ range(v, w)|length }}",
+	"{{ v is same as(w) }}", "{{ v is divisible by(w) }}", "{{ cycle(v, w) }}", "{% include v with w %}", "{{ v|format(w) }}", "{{ v matches w }}", "{{ v starts with w }}{{ v ends with w }}", "{{ v and w }}{{ v or w }}{{ v ? w : v }}",
+	"{% for k, x in v %}{{ x in w }}{% endfor %}", "{% if v in w %}y{% endif %}{% for x in w %}{% if x in v %}z{% endif %}{% endfor %}",
 }
 
 const c05Canary = "{% macro cm(x) %}<{{ x }}>{% endmacro %}{% for i in [1, 2] %}{{ i }}{% endfor %}{{ cm('c') }}{{ s.Name }}|{{ 'ok'|upper }}|{% include 'canary_inc' %}"
@@ -412,6 +446,36 @@ func (p *c05) Run(rec *core.Recorder, seed uint64, idx int, tier string) {
 		return
 	}
 	idx -= nA
+
+	// ---- A2: every ordered pair of value shapes under the constructs that take two operands (one pair in six in the quick
+	// tier, chosen by the seed; all of them in the thorough tier)
+	nP := len(vals) * len(vals) * len(c05PairConstructs)
+	if idx < nP {
+		if tier != "thorough" && r.Intn(6) != 0 {
+			return
+		}
+		src := c05PairConstructs[idx%len(c05PairConstructs)]
+		k := idx / len(c05PairConstructs)
+		v, w := vals[k/len(vals)], vals[k%len(vals)]
+		if strings.Contains(src, "range(") || strings.Contains(src, "slice(") || strings.Contains(src, "cycle(") || strings.Contains(src, "number_format(") || strings.Contains(src, "round(") || strings.Contains(src, "batch(") {
+			if hugeNumber(v.V) || hugeNumber(w.V) {
+				rec.Count("skipped-resource-request", 1)
+				return
+			}
+		}
+		cs := map[string]any{"source": src, "v": v.Name, "w": w.Name}
+		rec.Eval("pair-grid", src+"\x00"+v.Name+"\x00"+w.Name, true)
+		e := c05NewEngine(nil)
+		c05ExerciseOne(rec, "pair-grid", e, src, map[string]interface{}{"v": v.V, "w": w.V}, cs)
+		if idx%16 == 0 {
+			c05CanaryCheck(rec, e, "rendering "+src+" with v="+v.Name+" w="+w.Name, cs)
+		}
+		if rec.WantSample("pair-grid") {
+			rec.Sample("pair-grid", cs)
+		}
+		return
+	}
+	idx -= nP
 
 	// ---- B: exhaustive truncation and single-byte deletion of the corpus
 	nB := 0
